@@ -315,6 +315,7 @@ def run_impl(case, tag="x"):
             pass
     if twin and not twin.get("subclass") and len(twin["ops"]) % 2:
         m2 = fresh(C, True, [], cname + "_twin2")      # ... or created after the machine under test
+    auto_t0 = [0]
     obs = []
     for opi_, op in enumerate(case["hist"]):
         if m2 is not None and opi_ < len(twin["ops"]):
@@ -358,10 +359,13 @@ def run_impl(case, tag="x"):
                   if len(_pubs) > 4000:
                       del _pubs[:2000]
               elif op[0] == "aenable":
+                  auto_t0[0] = clock.t
                   m.on_enable()
               elif op[0] == "aiter":
                   clock.t = op[1]
-                  m.on_iteration(op[1] / TPS)
+                  # the selector passes the time of ITS timer, started when the autonomous period began: another origin than
+                  # the clock the machine reads (the machine's timing is its own clock's business)
+                  m.on_iteration((op[1] - auto_t0[0]) / TPS)
               elif op[0] == "adisable":
                   m.on_disable()
         except Exception as e:      # noqa
